@@ -406,6 +406,11 @@ def _used_names_in_file(filename: Path) -> Collection[str]:
     imported_names = tracing.get_imported_names(ast_root)
 
     names = []
+    for node in core.walk(ast_root, ast.ImportFrom):
+        # The imported objects must keep their original names, whether or not they are used
+        # (re-exports), and whatever alias they are imported under.
+        names.extend(alias.name for alias in node.names if alias.name != "*")
+
     for node in core.walk(ast_root, (ast.Name, ast.Attribute)):
         if isinstance(node, ast.Name) and node.id in imported_names:
             names.append(node.id)
